@@ -16,6 +16,20 @@ CHECKS = {
         technique="Coq proof (induction over pipelines/scales/histories) + regenerated tables (vm_compute obligations) + "
                   "extracted-model correspondence",
         design="3/C01"),
+    "C20": dict(
+        text="Theorems (Coq, unbounded): for every accepted pipeline (any length, names, parameter values of the documented "
+             "domains, image size, matching-cost step), checking on a fresh machine yields exactly the documented cumulative / "
+             "non-cumulative entries in pipeline order; the validation-triggered second round is a no-op; global margins are "
+             "per side max(sum cumulative, each non-cumulative); all values are non-negative; inserting a step never decreases "
+             "a side. Proved for ANY margin tables passing a decidable test that is re-run (vm_compute) on the tables "
+             "regenerated from the descriptors, filter properties and check callbacks of /repo at every run; GlobalMargins "
+             "model tied to the code by a correspondence run on random accepted pipelines.",
+        note="Trusted: Coq kernel, translator/gen_margins.py (ast), extraction + driver, harness. Modelled not verified: that "
+             "the private attributes read by the margin expressions hold the checked parameters (covered by the correspondence); "
+             "float evaluation of int(3*sigma_space+1) (sigma values restricted to multiples of 1/8); saved margins are C19.",
+        technique="Coq proof (induction over pipelines, ordered-dictionary lemmas) + regenerated margin tables "
+                  "(vm_compute obligation) + extracted-model correspondence",
+        design="3/C20"),
 }
 
 NOT_APPLICABLE = []
